@@ -22,6 +22,9 @@ EXTERNAL = {
     "qsort": {0: "w"},
     "fprintf": {}, "printf": {}, "fputs": {0: "r"}, "fclose": {}, "fwrite": {0: "r"}, "fread": {0: "w"},
     "log_message": {}, "error": {}, "warning": {}, "message": {},
+    # functions of values only: they receive no pointer
+    "toupper": {}, "tolower": {}, "isalpha": {}, "isspace": {}, "ispunct": {}, "isdigit": {}, "isalnum": {}, "isupper": {}, "islower": {},
+    "abs": {}, "fabs": {}, "fabsf": {}, "log": {}, "logf": {}, "exp": {}, "expf": {}, "sqrt": {}, "sqrtf": {}, "floor": {}, "ceil": {},
     "_mm256_load_ps": {0: "r"}, "_mm256_loadu_ps": {0: "r"}, "_mm256_store_ps": {0: "w"}, "_mm256_storeu_ps": {0: "w"},
     "_mm256_load_si256": {0: "r"}, "_mm256_loadu_si256": {0: "r"}, "_mm256_store_si256": {0: "w"},
 }
@@ -204,6 +207,8 @@ class Effects:
                         S.preads.add(p)
             elif k == "CallExpr":
                 callee = n.callee
+                if callee and callee not in EXTERNAL:
+                    callee = self.prog.resolve(callee, n.d.get("loc", ""))
                 for i, a in enumerate(n.args):
                     ap = self._derive(a, alias)
                     if not ap:
